@@ -1,7 +1,7 @@
 From Coq Require Import List NArith ZArith Permutation Relations.
 From SK Require Import lib.LGraph lib.StrJoin model.C08_Model proof.C08_Spec proof.C08_Faithful proof.C08_Nauty proof.C08_SigFun proof.C08_Sound proof.C08_Invariant proof.C08_Value proof.C08_GraphSig proof.C08_Auts proof.C08_GenIdem proof.C08_Select proof.C08_Orbits.
 From SK Require Import model.C08_Digraph proof.C08_DSpec proof.C08_DSer proof.C08_DNauty proof.C08_DInvariant proof.C08_MaxDepth proof.C08_DValue proof.C08_DGraphSig proof.C08_OrbitsAut proof.C08_DAuts proof.C08_DOrbitsAut.
-From SK Require Import model.C08_Obs proof.C08_Order model.C08_Sel proof.C08_SelNauty proof.C08_SelEquiv proof.C08_MaxDepth2.
+From SK Require Import model.C08_Obs proof.C08_Order model.C08_Sel proof.C08_SelNauty proof.C08_SelEquiv proof.C08_MaxDepth2 proof.C08_Pattern.
 Import ListNotations.
 
 (** 1. Faithfulness: the canonical graph is the input relabelled by a map that is injective on its nodes;
@@ -487,3 +487,13 @@ Theorem C08_nauty_max_depth_no_early_stop : forall (md : nat) (g : graph) (p : l
   canon_md md g = Some (p, false) -> p = nauty_perm g.
 Proof. exact canon_md_no_early_stop. Qed.
 Print Assumptions C08_nauty_max_depth_no_early_stop.
+
+(** 24. The monitored digest premise.  The correspondence compares the equality pattern of the implementation's digests with
+        [pattern [] strings] of the model's serialisations ([run_case], [run_batch], [run_sel], ...).  Two positions of the pattern
+        agree exactly when the two strings are equal - so a run without mismatch has checked, on every pair of strings it compared,
+        "digests equal <=> strings equal": the premise of the soundness theorems. *)
+Theorem C08_pattern_observable : forall (l : list str) (i j : nat) (s t : str),
+  nth_error l i = Some s -> nth_error l j = Some t ->
+  (nth_error (pattern [] l) i = nth_error (pattern [] l) j <-> s = t).
+Proof. exact pattern_eq_iff. Qed.
+Print Assumptions C08_pattern_observable.
